@@ -57,7 +57,7 @@ struct GMsg {
     bool useCandidate = false;
     QByteArray iceControlling, iceControlled;
     bool wf = true;        // inside WFMsg of the model (round trip expected)
-    int strQuirk = 0;      // 1: some string contains NUL, 2: some string starts with a BOM
+    int strQuirk = 0;      // 1: some string contains NUL (cut before /repo commit bdc4d1e), 2: some string starts with a BOM
 };
 
 static QHostAddress toHost(const GAddr &a) {
